@@ -46,6 +46,7 @@ void adapter_exec(Ev *ev)
     int isrun = ev_is(ev, "run");
     if (!isrun && !ev_is(ev, "enc")) { fprintf(stderr, "slip: unknown op %s\n", ev->name); exit(2); }
     uint32_t sof = ev->a[0] ? RFC1055_WITH_SOF : RFC1055_DEFAULT;
+    if (harness_flavour % 5 == 4) sof |= 0x10u;      /* a flag bit the library does not know: the mode is the SOF bit, whatever else is set */
     size_t n = (size_t)ev->a[5];
     unsigned char *in = n ? xblock(n) : xblock0();
     for (size_t i = 0; i < n; i++) in[i] = (unsigned char)ev->a[6 + i];
